@@ -9,6 +9,11 @@ type sC05 struct {
 	M map[string]interface{}
 }
 
+// sC05t reaches its map only under a renamed tag.
+type sC05t struct {
+	Labels map[string]interface{} `bexpr:"labels"`
+}
+
 // sC05x is sC05 with the extra field X (the "twin" used by the substitution oracle).
 type sC05x struct {
 	A int8
@@ -38,7 +43,7 @@ func H_C05_table() {
 	var d, dPresent interface{}
 	sel := ""
 	expectDisp := false
-	form := vChoose(9)
+	form := vChoose(10)
 	what := ""
 	switch form {
 	case 0:
@@ -57,13 +62,19 @@ func H_C05_table() {
 		d, dPresent, sel, expectDisp, what = map[string]interface{}{"m": map[string]int8(nil)}, nil, "m.x", true, "leaf absent in nil map"
 	case 7:
 		d, dPresent, sel, expectDisp, what = map[string]map[string]nStr{"m": {k: "z"}}, map[string]map[string]nStr{"m": {"x": "z"}}, "m.x", true, "leaf absent in typed map"
+	case 9:
+		d, dPresent, sel, expectDisp, what = map[string]interface{}{"s": &sC05t{Labels: map[string]interface{}{k: v}}}, map[string]interface{}{"s": &sC05t{Labels: map[string]interface{}{"x": v}}}, "s.labels.x", true, "leaf absent in a map reached through a renamed struct field"
 	default:
 		d, dPresent, sel, expectDisp, what = map[nKeyStr]interface{}{"m": map[nKeyStr]interface{}{nKeyStr(k): v}}, map[nKeyStr]interface{}{"m": map[nKeyStr]interface{}{"x": v}}, "m.x", true, "leaf absent in named-string-keyed map"
 	}
-	ev := mustCreate(exprFor(op, sel, "1"))
+	lit := "1"
+	if op >= 6 && vBool() {
+		lit = `"("` // a pattern that does not compile: irrelevant when the key is absent
+	}
+	ev := mustCreate(exprFor(op, sel, lit))
 	o, res, _ := evalO(ev, d)
 	vAssume(o != oPanic)
-	what = what + ", " + opText[op]
+	what = what + ", " + opText[op] + " " + lit
 	if k != "x" || form == 6 {
 		if expectDisp {
 			vAssert(o != oError, what+": not an error")
@@ -74,7 +85,7 @@ func H_C05_table() {
 			vCover("error")
 		}
 	} else if dPresent != nil {
-		o2, _, _ := evalO(mustCreate(exprFor(op, sel, "1")), dPresent)
+		o2, _, _ := evalO(mustCreate(exprFor(op, sel, lit)), dPresent)
 		vAssert(o == o2, what+": present key evaluates normally")
 		vCover("present")
 	}
